@@ -60,7 +60,7 @@ def same(a, b):
 @st.composite
 def spelling_case(draw):
     L = draw(st.sampled_from(shipped.LIBS))
-    w = dict(WEIGHTS[L], special=3, polycyclic=1)
+    w = dict(WEIGHTS[L], special=5, polycyclic=1)
     smi = draw(molgen.mixed(w, metal='Ru' if L == 'XieGA2022' else 'Pt', max_heavy=draw(st.sampled_from([5, 8, 12, 20]))))
     return dict(kind='spellings', lib=L, smiles=smi, seed=draw(st.integers(0, 10 ** 6)), n=draw(st.sampled_from([6, 10, 20])))
 
@@ -145,7 +145,8 @@ def check_spellings(ctx, case):
 
 def enum_perms(tier):
     pool = ['CCO', 'CC=O', 'C=CC', 'CC(C)C', 'C1CC1C', 'C/C=C\\C', 'C/C=C/C', 'CC#C', 'OCCO', 'C[CH2]', 'CC(=O)O', 'C1CCC1', 'COC', 'C=C=C',
-            'C[Pt]', '[Pt]CC[Pt]', 'OC[Pt]', 'C(=O)([Pt])O', '[Pt]C([Pt])C', 'CC(C)(C)C', 'C1CC2CC12', 'C=CC=C', 'C[Ru]', '[Ru]CC[Ru]']
+            'C[Pt]', '[Pt]CC[Pt]', 'OC[Pt]', 'C(=O)([Pt])O', '[Pt]C([Pt])C', 'CC(C)(C)C', 'C1CC2CC12', 'C=CC=C', 'C[Ru]', '[Ru]CC[Ru]',
+            'C[C]=CC', 'CC=[C]C', '[CH]=CC', 'C=[C]C', 'C[C]=C', 'C[CH]C', '[CH2]C=C', 'C[C]=O', 'CC(=O)[O]', '[CH2]OC', 'C[C](C)C', 'C[C]#C'[:4]]
     if tier == 'thorough':
         pool += ['CCCCCC', 'CC(C)CC', 'c1ccccc1', 'C1CCCCC1', 'CC/C=C\\CC'[:9], 'OCC(O)C', 'CC(=O)OC', 'C1=CCC=C1C']
     for L in shipped.LIBS:
@@ -183,6 +184,6 @@ def check_any(ctx, case):
 
 
 FAMILIES = [
-    Family('spellings', check_any, strategy=lambda tier: spelling_case(), n=(500, 12000)),
+    Family('spellings', check_any, strategy=lambda tier: spelling_case(), n=(800, 16000)),
     Family('exhaustive-permutations', check_any, enumerate=enum_perms),
 ]
